@@ -559,6 +559,38 @@ func runC17(c *Ctx) {
 		}
 	})
 	c.SetCount("extreme_magnitude_sets", int64(len(extSets)))
+	// receivers that sit in a large, mostly empty backing array (a preallocated buffer, or a short prefix of a long
+	// set): capacity 300 / 1024 / 5000 around sets of 0..12 elements, every mutator
+	{
+		var bigCap int64
+		for _, extra := range []int{250, 300, 1024, 5000} {
+			for sz := 0; sz <= 12; sz++ {
+				a := make([]int, sz)
+				for i := range a {
+					a[i] = 3*i - 5
+				}
+				for _, x := range []int{-6, -5, -2, 1, 4, 28, 100} {
+					for _, fn := range []string{"Remove", "ContainsSingle"} {
+						sc := siCase{Fn: fn, A: a, X: x, CapA: extra}
+						c.Check(func() *Failure { return evalSI(sc) })
+						bigCap++
+					}
+				}
+				for _, args := range [][]int{{}, {-5}, {0, 2, 0}, {100, -100, 7}} {
+					sc := siCase{Fn: "Add", A: a, Args: args, CapA: extra}
+					c.Check(func() *Failure { return evalSI(sc) })
+					bigCap++
+				}
+				for _, b := range [][]int{{}, {-5, 1}, {0, 2, 50}, {-9, -8, -7, -6, -5, -4}} {
+					sc := siCase{Fn: "UnionMethod", A: a, B: b, CapA: extra}
+					c.Check(func() *Failure { return evalSI(sc) })
+					bigCap++
+				}
+				c.Nontrivial(1)
+			}
+		}
+		c.SetCount("large_spare_capacity_cases", bigCap)
+	}
 	// NewSortedInts / Add on every argument list of length <= 3 over the extreme magnitudes (spans that do not fit an int)
 	{
 		var extLists [][]int
